@@ -246,13 +246,8 @@ pub fn run_c13(a: &Args, rep: &mut Report) {
             rep.sample(json!({"text": text, "expected": expect.as_ref().map(|e| hex(e))}));
         }
         if let Some((kind, detail)) = bad {
-            if kind == "panic" {
-                // panics belong to C14; C13 only reports them when the text is inside the documented syntax
-                if expect.is_none() {
-                    rep.count("panics_on_invalid_text_left_to_C14");
-                    continue;
-                }
-            }
+            // (C13 says invalid text "produces an error": a panic on a wrong operand shape, an unknown
+            // mnemonic or an out-of-range operand is reported here as well as by C14)
             // attribute to the single offending line when possible
             let mut culprit = String::from("multi");
             for d in &desc {
